@@ -525,6 +525,17 @@ def _native_energy(algo):
         return dict(confirmed=False, error=repr(e))
 
 
+def _setter_mock():
+    """receiver of the scheme setters: a linear simulation; the private callee that re-flags a non-linear one is the real function (it writes no scheme parameter)"""
+    me = sx.Mock("self", isNonLinear=False)
+    try:
+        real = extract.compile_fn(extract.get(PATH, "_Simu.__Solver_Time_scheme_changed"), sx.module_globals(MOD))
+        object.__setattr__(me, "_Simu__Solver_Time_scheme_changed", lambda: real(me))
+    except Exception:      # a tree without that callee: the setters do not call it
+        pass
+    return me
+
+
 def ob_set_hyperbolic():
     """Run the real setter on a mock with symbolic alpha in [0, 1/3]: derived beta, gamma for hht_newmark."""
     n = 0
@@ -535,7 +546,7 @@ def ob_set_hyperbolic():
         if wit in (0, Fraction(1, 3)):
             alpha = c.const(wit)   # boundary values are ground (comparisons decided exactly)
         g = sx.module_globals(MOD)
-        me = sx.Mock("self", isNonLinear=False)
+        me = _setter_mock()
         f = extract.compile_fn(extract.get(PATH, FN["set_hyp"]), g)
         f(me, dt, _algo("hht_newmark"), beta, gamma, alpha)
         got = dict(me._writes())
@@ -553,7 +564,7 @@ def ob_set_hyperbolic():
         c = Ctx(["dt", "alpha", "beta", "gamma"], nspare=1,
                 witness=dict(dt=Fraction(1, 10), alpha=Fraction(1, 5), beta=Fraction(1, 4), gamma=Fraction(1, 2)))
         dt, alpha, beta, gamma = (c.sym(k) for k in ("dt", "alpha", "beta", "gamma"))
-        me = sx.Mock("self", isNonLinear=False)
+        me = _setter_mock()
         f = extract.compile_fn(extract.get(PATH, FN["set_hyp"]), sx.module_globals(MOD))
         f(me, dt, _algo(a), beta, gamma, alpha)
         p = dict(me._writes()).get("_Simu__hyperbolicParams")
@@ -568,7 +579,7 @@ def ob_reject_bad_dt():
     for key, args in (("set_hyp", ()), ("set_par", ())):
         for bad in (0, Fraction(-1, 2)):
             c = Ctx(["x"], nspare=1)
-            me = sx.Mock("self", isNonLinear=False)
+            me = _setter_mock()
             f = extract.compile_fn(extract.get(PATH, FN[key]), sx.module_globals(MOD))
             try:
                 f(me, c.const(bad))
